@@ -42,7 +42,7 @@ ASSUMPTIONS = [
     "passes it on the real accfg-trace-states output is checked per generated program (L1), not proved for all programs",
     "the model weave (coq/Model/AccWeave.v) of _weave_states_in_region is tied to the code by exact comparison modulo renaming (L1); that its output always passes wf_prog / has the input's trace is validated per run, not proved",
     "ops with regions other than scf.for/scf.if, and accfg.effects on scf ops, are outside the abstract IR (converter rejects them): "
-    "the `elif op.regions` branch of _weave_states_in_region (third hunk of fix b1d61cd) is covered by no model, L1 or L2",
+    "the `elif op.regions` branch of _weave_states_in_region (third hunk of fix 9e575e1) is covered by no model, L1 or L2",
     "cert_side of the woven program is evaluated per run, not proved for the weave model; on re-threaded IR (an scf.if that already has a "
     "state result) it is false (C07_rethreaded_if_refuted) and only the per-run ghost execution of L2 speaks about soundness there",
     "the inferred dictionaries are compared as dictionaries (key order of infer_state_of is not observable by its two users)",
